@@ -700,6 +700,44 @@ class E5:
                                    f.where, cfg=self.cfg)
         return n
 
+    def rule_odd_count(self):
+        """MakePath / MakePathD from a std::vector of coordinates: an odd number of values is reported (DoError(non_pair_error_i)) and
+        only then; the number of values handed on is the even part.  The function is interpreted for list sizes 0..7."""
+        n = 0
+        for q in ("MakePath", "MakePathD"):
+            for f in self.db.find(q, required=False) or []:
+                if f.is_pattern or f.body is None or not f.params or "vector" not in (dqt(f.params[0]) or qt(f.params[0]) or ""):
+                    continue
+                lname = f.params[0].get("name")
+                bad = None
+                for size in range(0, 8):
+                    handed = []
+
+                    def hook(name, argv, nd, size=size, handed=handed):
+                        if name == "size" and nd.get("kind") == "CXXMemberCallExpr" and canon(self.db.member_base(nd)) == lname:
+                            return size
+                        if name == "MakePathGeneric":
+                            handed.append(argv[1] if argv and len(argv) > 1 else None)
+                            return None
+                        if name.startswith("ctor:"):
+                            return None
+                        return NotImplemented
+                    it = Interp(self.db, {}, [], call_hook=hook)
+                    try:
+                        it.run_function(f)
+                    except Unsupported as e:
+                        raise AnalysisBroken("cannot interpret %s: %s" % (f.qual, e))
+                    raised = any(e[0] == "DoError" for e in it.effects)
+                    okc = raised == (size % 2 == 1) and (not handed or handed[0] is None or int(handed[0]) == size - size % 2)
+                    n += 1
+                    self.chk.instance("R8.odd-count", {"function": f.qual, "sig": f.sig[:60], "values": size, "reports": raised, "handed_on": handed[:1]} if size in (2, 3) else None, ok=okc)
+                    if not okc and bad is None:
+                        bad = (size, raised, handed[:1])
+                if bad:
+                    self.chk.violation("R8.odd-count", f.qual, f.sig[:40], "%s with %d values: DoError(non_pair_error_i) %s, %s values are handed on - an odd number of coordinates "
+                                       "must be reported (and only an odd one), the dangling value dropped" % (f.qual, bad[0], "called" if bad[1] else "not called", bad[2]), f.where, cfg=self.cfg)
+        return n
+
     def _scalepaths_table(self, f, cond, then):
         txt = canon(then)
         if "|= range_error_i" not in txt or "DoError(range_error_i)" not in txt:
